@@ -5,10 +5,10 @@ import vlib
 KIND_TYPE = {"dom": 3, "str": 4, "app": 19}
 
 def obj_line(o):
-    flags = (2 if o["r"] else 0) | (1 if o["w"] else 0)
+    flags = (2 if o["r"] else 0) | (1 if o["w"] else 0) | o.get("hflags", 0)      # hflags: 80h direct storage, 40h node-id relative
     if o["kind"] == "int":
         t = {1: 0, 2: 1, 4: 2}[len(o["data"])]
-        args = o["data"]
+        args = o.get("stored", o["data"])          # stored: the raw value (the reference's data is what a client reads)
     elif o["kind"] == "dom":
         t = 3
         args = [len(o["data"])]            # default fill pattern of the harness = DomPat of the spec
